@@ -1,5 +1,5 @@
-(* Concrete witnesses: the fixpoint clause of C05 is false of the unchanged code; and non-vacuity
-   examples for the positive theorems. *)
+(* Concrete regression witnesses for the two repaired fixpoint defects, and non-vacuity examples for the
+   positive theorems. *)
 From Coq Require Import String Permutation.
 From Coq Require Import ZifyBool ZifyNat ZifyN.
 From GVL Require Import NList.
@@ -18,39 +18,34 @@ Definition w1_text : str :=
   lines_text [$"v=0"; $"s= "; $"t=0 0"; $"m=application 0 RTP/AVP 98"; $"a=rtpmap:98 custom/90000";
               $"a=fmtp:98 z=y" ++ [9] ++ $"; b=x"].
 
-Ltac witness E text :=
-  exists E, text, (@nil N);
+(* Regression witnesses.  Before the fix commits 4d3e573 (decodeFMTP trims with TrimSpace) and c186975
+   (every leading start code is stripped) these two texts REFUTED the fixpoint clause (see history/):
+   the description parsed from them re-parsed, after Marshal, to a different one.  For the repaired code
+   they are fixed points. *)
+Ltac stable_witness E text :=
   let r := eval vm_compute in (parse_text E ord_id text []) in
   match r with
   | Ok ?d1 =>
       exists d1;
       let r2 := eval vm_compute in (marshal_text d1) in
       match r2 with
-      | Ok ?t1 =>
-          exists t1;
-          let r3 := eval vm_compute in (parse_text E ord_id t1 []) in
-          match r3 with Ok ?d2 => exists d2 end
+      | Ok ?t1 => exists t1
       end
   end;
-  repeat split; try (vm_compute; reflexivity);
-  let H := fresh in intros H; apply (f_equal esession) in H; vm_compute in H; discriminate.
+  repeat split; vm_compute; reflexivity.
 
-(* an accepted description whose marshalled form parses to a DIFFERENT description: the tab at the end
-   of z's value survives the first parse (another pair follows), Marshal sorts the keys, z becomes the
-   last pair and getFormatAttribute's TrimSpace removes the tab *)
-Theorem reparse_refuted_generic : exists E text os d1 t1 d2,
-  parse_text E ord_id text os = Ok d1 /\ marshal_text d1 = Ok t1 /\ parse_text E ord_id t1 os = Ok d2 /\ d2 <> d1.
-Proof. witness E_none w1_text. Qed.
+Theorem reparse_witness_generic_stable : exists d1 t1,
+  parse_text E_none ord_id w1_text [] = Ok d1 /\ marshal_text d1 = Ok t1 /\ parse_text E_none ord_id t1 [] = Ok d1.
+Proof. stable_witness E_none w1_text. Qed.
 
-(* sprop-parameter-sets=Z2QADA==,AAAAAQAAAAFo : the PPS is 00 00 00 01 00 00 00 01 68; one start code is
-   trimmed by the first parse, the remaining one by the second *)
+(* sprop-parameter-sets=Z2QADA==,AAAAAQAAAAFo : the PPS is 00 00 00 01 00 00 00 01 68 *)
 Definition w2_text : str :=
   lines_text [$"v=0"; $"s= "; $"t=0 0"; $"m=video 0 RTP/AVP 96"; $"a=rtpmap:96 H264/90000";
               $"a=fmtp:96 sprop-parameter-sets=Z2QADA==,AAAAAQAAAAFo"].
 
-Theorem reparse_refuted_startcode : exists E text os d1 t1 d2,
-  parse_text E ord_id text os = Ok d1 /\ marshal_text d1 = Ok t1 /\ parse_text E ord_id t1 os = Ok d2 /\ d2 <> d1.
-Proof. witness E_sps w2_text. Qed.
+Theorem reparse_witness_startcode_stable : exists d1 t1,
+  parse_text E_sps ord_id w2_text [] = Ok d1 /\ marshal_text d1 = Ok t1 /\ parse_text E_sps ord_id t1 [] = Ok d1.
+Proof. stable_witness E_sps w2_text. Qed.
 
 (* ---------- a non-trivial inhabitant of the round-trip domain ---------- *)
 Definition ex_m0 : media :=
